@@ -267,6 +267,9 @@ def requote(n):
         return n
     if isinstance(n, ast.String):
         return ast.String("it's ''" + n.val)
+    if isinstance(n, ast.Geography):
+        # the lexer keeps a geography body verbatim: parser-producible values hold quotes doubled
+        return ast.Geography("O''Hare " + n.val)
     return type(n)(**{{f.name: requote(getattr(n, f.name)) for f in dataclasses.fields(n)}})
 
 try:
